@@ -101,8 +101,11 @@ impl Framed {
     /// Finish sending a keepalive reply that a previous (possibly cancelled) call started.
     /// write_all_buf advances `pending_pong` by whatever was written, so this is safe to cancel.
     async fn flush_pending_pong(&mut self) -> Result<()> {
-        if self.pending_pong.has_remaining() {
+        // the keepalive stays parked until its reply has been written *and* flushed, so a call
+        // that was cancelled during the flush is picked up again here
+        if self.pending_pong.has_remaining() || self.pending_keepalive.is_some() {
             self.inner.write_all_buf(&mut self.pending_pong).await?;
+            self.inner.flush().await?;
         }
 
         Ok(())
@@ -170,6 +173,9 @@ impl Framed {
         let mut buf = self.codec.encode(&packet.into())?;
         if !buf.is_empty() {
             self.inner.write_all_buf(&mut buf).await?;
+            // message based transports (i.e. the websocket) only queue the frame on write, and a
+            // failed attempt to push it out is not retried until something else is written
+            self.inner.flush().await?;
         }
 
         Ok(())
